@@ -23,6 +23,7 @@ ASSUMPTIONS = [
     "fontTools' glyf / CFF readers report the compiled structure",
     "source compatibility holds by construction; families in which the closing point of a contour coincides with its start in some masters only are excluded by the position-based perturbation (DESIGN.md P20)",
     "cu2qu may fail to find a common approximation (documented error): discarded and counted",
+    "a component whose 2x2 determinant changes sign between masters (mirrored in some masters only) is outside the domain: mirrored components are decomposed with reversed contours, so no decomposition of such a component can be compatible across masters; discarded and counted",
 ]
 N = {"quick": (8, 110), "thorough": (16, 600)}
 FLOORS = {"ttf": 0.219, "otf": 0.1, "sparse-master": 0.1, "differing-2x2": 0.101, "cubic": 0.289}  # a third of the measured frequency: a starving generator is a harness error, sampling noise is not
@@ -175,6 +176,13 @@ def run_case(case, ctx):
     if extent(fam["base"]) > 3000:
         raise Discard("resolved coordinate beyond +-3000 (perturbed masters would leave the format range)")
     module = S.ufo_module(case["module"])
+    ms_ = F.master_specs(fam)
+    for gidx, g0 in enumerate(ms_[0]["glyphs"]):
+        for cidx, c0 in enumerate(g0.get("components", [])):
+            signs = {R.det(m_["glyphs"][gidx]["components"][cidx]["t"]) < 0 for m_ in ms_}
+            if len(signs) > 1:
+                # a mirrored component is decomposed with its contour reversed; a component that is mirrored in some masters only has no compatible decomposition at all
+                raise Discard("a component's determinant changes sign between masters")
     ds, fonts = F.build_designspace(fam, module)
     if entry != "TTFs" and "skipExportGlyphs" in opts:
         # the designspace entry points take the skip list from the designspace lib (a skipExportGlyphs argument is overridden there)
